@@ -171,6 +171,14 @@ def scu_case(value):
         return []
     def responder_other(dul, rec):
         return responder(dul, rec, ts_other, state_other)
+    if msg_id % 3 == 2:
+        # earlier in this process the same status codes were met elsewhere: without a command (as the module's
+        # documentation shows), and in the responses of other services
+        from pynetdicom2 import statuses, dimsemessages
+        for code in (0xFF00, 0xFF01, final):
+            statuses.Status(code)
+            for other_cmd in (dimsemessages.CStoreRSPMessage, dimsemessages.CEchoRSPMessage, dimsemessages.CMoveRSPMessage):
+                statuses.Status(code, other_cmd)
     fac = fd.Factory([lambda d: setattr(d, 'responder', responder), lambda d: setattr(d, 'responder', responder_other)])
     got_other = []
     remote = {'aet': 'SRV', 'address': 'peer.example', 'port': 104}
@@ -331,7 +339,7 @@ def run(ctx):
                 '(odd-length values, long descriptions), 3 transfer syntaxes, maximum PDU lengths down to 32 bytes; '
                 'provider side through qr_find_scp / modality_work_list_scp (wire read by the reference codecs), user '
                 'side through qr_find_scu / modality_work_list_scu / the c_find() wrapper against a scripted peer with '
-                'final status success/failure/cancel, counting every receive() call; provider handler failing after k matches; provider handler filling in and yielding the query object itself; the caller editing a received match and sending it as the next query; a query prepared, a C-ECHO carried out, and only then the results iterated; identifiers given as FileDataset objects (as read from files); a second requested association alive meanwhile that negotiated another transfer syntax and context ID for the same class; '
+                'final status success/failure/cancel, counting every receive() call; provider handler failing after k matches; provider handler filling in and yielding the query object itself; the caller editing a received match and sending it as the next query; a query prepared, a C-ECHO carried out, and only then the results iterated; identifiers given as FileDataset objects (as read from files); the same status codes classified earlier in the process for other commands / none; a second requested association alive meanwhile that negotiated another transfer syntax and context ID for the same class; '
                 'non-trivial = >=2 matches, mixed pending codes or a multi-fragment response')
     ctx.assumptions = ['matches carry only pending statuses (a non-pending status supplied by the handler is outside the statement)',
                        'loopback composition of both sides is exercised by C20/C15 style checks, not here']
